@@ -249,7 +249,16 @@ BoolExpect(l) == IF l.body \in {"TRUE", "FALSE", "true", "False", "tRUE", "0", "
                  ELSE "reject"
 
 ---------------------------------------------------------------------------
-All == (IF "bool" \in Kinds THEN BoolLits ELSE {}) \cup (IF "int" \in Kinds THEN {l \in IntLits : IntWellFormed(l)} ELSE {})
+(* Spellings that are NOT literals of the standard although each part of them is one: an exponent belongs to real literals
+   only (B.1.2.1), not to the fields of durations, times of day and dates; a fraction belongs to the LAST field only.
+   They must be rejected - never read as some value. *)
+IllSpellings == { <<"dur", "T#1.5E1s">>, <<"dur", "T#2.5e-1h">>, <<"dur", "TIME#1E3ms">>, <<"dur", "t#1.0e+1m">>, <<"dur", "T#1.5E1d">>,
+                  <<"tod", "TOD#12:00:1.5E1">>, <<"tod", "TIME_OF_DAY#1.5E1:00:00">>, <<"dt", "DT#2020-01-01-12:00:1.5E1">>,
+                  <<"date", "D#2020-1.5-01">>, <<"date", "D#2020-01-1E1">>, <<"dur", "T#1.5.5s">>, <<"tod", "TOD#12:1.5:00">> }
+IllLits == { [k |-> "ill", as |-> x[1], text |-> x[2]] : x \in IllSpellings }
+
+---------------------------------------------------------------------------
+All == (IF "ill" \in Kinds THEN IllLits ELSE {}) \cup (IF "bool" \in Kinds THEN BoolLits ELSE {}) \cup (IF "int" \in Kinds THEN {l \in IntLits : IntWellFormed(l)} ELSE {})
        \cup (IF "bits" \in Kinds THEN BitLits ELSE {}) \cup (IF "real" \in Kinds THEN RealLits ELSE {})
        \cup (IF "dur" \in Kinds THEN DurLits ELSE {}) \cup (IF "date" \in Kinds THEN DateLits ELSE {})
        \cup (IF "tod" \in Kinds THEN TodLits \cup TodLong ELSE {}) \cup (IF "dt" \in Kinds THEN DtLits ELSE {})
@@ -259,13 +268,13 @@ Init == lit \in All
 Next == UNCHANGED lit
 Spec == Init /\ [][Next]_vars
 
-Spelling(l) == CASE l.k = "bool" -> BoolSpelling(l) [] l.k = "int" -> IntSpelling(l) [] l.k = "bits" -> BitSpelling(l) [] l.k = "real" -> RealSpelling(l)
+Spelling(l) == CASE l.k = "ill" -> <<l.text>> [] l.k = "bool" -> BoolSpelling(l) [] l.k = "int" -> IntSpelling(l) [] l.k = "bits" -> BitSpelling(l) [] l.k = "real" -> RealSpelling(l)
                  [] l.k = "dur" -> DurSpelling(l) [] l.k = "date" -> DateSpelling(l) [] l.k = "tod" -> TodSpelling(l)
                  [] l.k = "dt" -> DtSpelling(l) [] l.k = "str" -> StrSpelling(l) [] l.k = "addr" -> AddrSpelling(l)
-Value(l) == CASE l.k = "bool" -> BoolValue(l) [] l.k = "int" -> IntValue(l) [] l.k = "bits" -> BitValue(l) [] l.k = "real" -> RealValue(l)
+Value(l) == CASE l.k = "ill" -> [as |-> l.as] [] l.k = "bool" -> BoolValue(l) [] l.k = "int" -> IntValue(l) [] l.k = "bits" -> BitValue(l) [] l.k = "real" -> RealValue(l)
               [] l.k = "dur" -> DurValue(l) [] l.k = "date" -> DateValue(l) [] l.k = "tod" -> TodValue(l)
               [] l.k = "dt" -> DtValue(l) [] l.k = "str" -> StrValue(l) [] l.k = "addr" -> AddrValue(l)
-Expect(l) == CASE l.k = "bool" -> BoolExpect(l) [] l.k = "int" -> IntExpect(l) [] l.k = "bits" -> BitExpect(l) [] l.k = "real" -> "accept"
+Expect(l) == CASE l.k = "ill" -> "reject" [] l.k = "bool" -> BoolExpect(l) [] l.k = "int" -> IntExpect(l) [] l.k = "bits" -> BitExpect(l) [] l.k = "real" -> "accept"
                [] l.k = "dur" -> DurExpect(l) [] l.k = "date" -> DateExpect(l) [] l.k = "tod" -> TodExpect(l)
                [] l.k = "dt" -> DtExpect(l) [] l.k = "str" -> "accept" [] l.k = "addr" -> AddrExpect(l)
 
